@@ -540,3 +540,21 @@ def op_req(w: World, op: dict, before: dict) -> dict:
 def obs_equal(a: dict, b: dict):
     """difference between two dumps on everything the "state intact" property covers (has_update is bookkeeping)"""
     return diff_json({k: v for k, v in a.items() if k != "upd"}, {k: v for k, v in b.items() if k != "upd"})
+
+
+def collect_caps(rng, position, negative=False):
+    """a (cap0, cap1, class) choice for collect_fee(max_collect_amount0/1): each cap independently None (= all), exactly 0 (= nothing),
+    below / exactly at / above the pending amount of ITS token, and a value between the two pending amounts (a cap compared with the other
+    token's pending amount is the slip this exposes); negative caps only where the caller judges rejections"""
+    from decimal import Decimal
+    pend = (Decimal(position.pending_amount0), Decimal(position.pending_amount1))
+
+    def one(i):
+        mine, other = pend[i], pend[1 - i]
+        opts = [(None, "all"), (None, "all"), (Decimal(0), "zero"), (mine / 2 if mine else Decimal("0.001"), "below"), (mine, "exact"),
+                (mine * 3 + 1, "above"), ((mine + other) / 2 if mine != other else mine + Decimal("0.5"), "between")]
+        if negative:
+            opts.append((Decimal(-1), "negative"))
+        return rng.choice(opts)
+    (c0, k0), (c1, k1) = one(0), one(1)
+    return c0, c1, f"{k0}/{k1}"
